@@ -253,8 +253,8 @@ class A:
         g, r = self.g, self.g.r
         x = r.choice(self.live)
         y = g.fresh("d")
-        ops = ["clone", "cowclone", "and", "or", "xor", "andnot", "sflip", "sflipempty", "offk", "off", "off32"]
-        w = [6, 5, 4, 8, 8, 8, 8, 1, 4, 3, 1]
+        ops = ["clone", "cowclone", "and", "or", "xor", "andnot", "sflip", "sflipempty", "offk", "off", "off32", "agg"]
+        w = [6, 5, 4, 8, 8, 8, 8, 1, 4, 3, 1, 6]
         op = r.choices(ops, w)[0]
         if op == "cowclone" and x in self.views:
             op = "clone"
@@ -266,6 +266,20 @@ class A:
             q = r.choice(self.live)
             g.emit("%s %s %s %s" % (op, y, x, q))
             self.define(y, self.keys[x] | self.keys[q], self.taint[x] | self.taint[q])
+        elif op == "agg":
+            # a many-way aggregate with x FIRST (the first pair is combined by other kernels than the rest) or somewhere else
+            fn = r.choice(["fastor", "fastor", "heapor", "heapxor", "fastand", "paror 2", "parheapor 2", "parand 1"])
+            others = [r.choice(self.live) for _ in range(r.choice([1, 1, 2, 3]))]
+            names = [x] + others
+            if r.random() < 0.3:
+                r.shuffle(names)
+            g.emit("%s %s" % (fn.replace(" ", " %s " % y) if " " in fn else "%s %s" % (fn, y), " ".join(names)))
+            ks, tn = set(), set()
+            for n_ in names:
+                ks |= self.keys[n_]
+                tn |= self.taint[n_]
+            self.define(y, ks, tn)
+            g.count("derive:" + fn.split()[0])
         elif op == "sflip":
             a, b = self.rng(x)
             if b - a > 40 * CH:
@@ -807,6 +821,40 @@ def zc_fixed_episodes(g, kinds):
             g.count("zc:fixed-run-argument:" + iop)
             for n_ in list(ep.live):
                 if n_ != x:
+                    g.emit("zdetach %s" % n_)
+            g.emit("zkill %s" % m)
+            ep.check()
+            ep.dropall()
+        # (c) a view with several small ARRAY chunks as the FIRST operand of the many-way aggregates; the partner's chunks hold values
+        #     above / below / among the view's; then edits of the result and of the partner
+        for fn in ("fastor", "heapor", "heapxor", "paror 2", "parheapor 2", "fastand"):
+            ep = A(g)
+            ep.frozen = kind == "frozen"
+            x, m, v = g.fresh("s"), g.fresh("m"), g.fresh("v")
+            ks = [1, 2, 3, 4]
+            g.emit("mkrepr %s cow=0;1:A:5,9,300;2:A:7,8;3:A:100,200,40000;4:A:1,2,3" % x)
+            ep.define(x, ks)
+            g.emit("%s %s %s" % (zmk, m, x))
+            g.emit("zrd %s %s %s" % (v, kind, m))
+            ep.define(v, ks, [m]); ep.views.add(v)
+            o, e0 = g.fresh("o"), g.fresh("o")
+            g.emit("mkrepr %s cow=0;1:A:400,500;2:A:1,2;3:A:150,50000;9:A:7" % o)
+            ep.define(o, [1, 2, 3, 9])
+            g.emit("new %s" % e0)
+            ep.define(e0, [])
+            for names in ([v, o], [v, o, e0], [o, v], [v, v, o]):
+                d = g.fresh("d")
+                g.emit("%s %s" % (fn.replace(" ", " %s " % d) if " " in fn else "%s %s" % (fn, d), " ".join(names)))
+                ep.define(d, ks + [9], [m])
+                g.emit("zsame %s" % m)
+                ep.check()
+                for k in (1, 2, 3):
+                    g.emit("add %s %d" % (d, k * CH + 60000)); g.emit("rem %s %d" % (d, k * CH + 7)); g.emit("rem %s %d" % (d, k * CH + 5))
+                g.emit("zsame %s" % m)
+                ep.check()
+            g.count("zc:fixed-view-first-in-aggregate:" + fn.split()[0])
+            for n_ in list(ep.live):
+                if ep.taint[n_]:
                     g.emit("zdetach %s" % n_)
             g.emit("zkill %s" % m)
             ep.check()
